@@ -59,7 +59,7 @@ ASSUMPTIONS = ['IEEE double arithmetic and numpy comparison are the '
                'masked coordinates are outside the generated domain; a raise '
                'other than the requested out-of-bounds rejection is counted, '
                'not judged (R3)']
-BUDGET = {'quick': dict(examples=6400, max_s=200),
+BUDGET = {'quick': dict(examples=12800, max_s=200),
           'thorough': dict(examples=160000, max_s=2400)}
 
 Q = 0.25   # coordinate quantum
